@@ -13,7 +13,11 @@
     [walk_stat_cached] (a file is read again only when its Lstat size or modification time
     changed) and [start_listeners_sharing] (listeners of one certificate source share the
     tls.Config made first); so is [walk_skipping_empty] (entries of Lstat size 0 are left
-    out of the load instead of being read). *)
+    out of the load instead of being read) and [pinned_loads] (the configured path resolved
+    once, when the source is created).
+    - cert/path_source.go: the configured path is handed to loadPath as it is on every
+      iteration, so what it denotes - through the symbolic links among its parents - is found
+      anew by every load ([world], [denoted], [path_load]). *)
 From Coq Require Import String List NArith Bool.
 From Fabio Require Import Lib.Outcome Lib.Bytes Model.CertStore.
 Import ListNotations.
@@ -197,3 +201,49 @@ Definition listener_answers (srcs : sources) (ls : list listener) (n : str) : li
   map (fun c => conf_answer srcs c n) (start_listeners ls).
 Definition listener_answers_sharing (srcs : sources) (ls : list listener) (n : str) : list (option pick) :=
   map (fun c => conf_answer srcs c n) (start_listeners_sharing [] ls).
+
+(* ---- cert/path_source.go: the configured certificate path, handed to loadPath as it is on
+   every iteration of the reload loop ---- *)
+(* what the configured path denotes at one moment, the symbolic links among its parent
+   directories followed by the operating system at that moment (Lstat of the path itself does
+   not follow a link that is its last element):
+   - [RAbsent]: nothing there (a parent link dangles, the directory is not created yet):
+     Lstat(root) fails with a *PathError, the callback returns nil for the root, loadPath
+     returns an empty map and no error;
+   - [RFile name e]: not a directory - a file, or a symbolic link as the last element of the
+     path, which filepath.Walk does not follow: the callback is called for the root alone;
+   - [RDir d]: a directory with these entries below it *)
+Inductive rootview := RAbsent | RFile (name : str) (e : dentry) | RDir (d : dirstate).
+Definition root_load (r : rootview) : load :=
+  match r with
+  | RAbsent => Loaded (Some [])
+  | RFile name e => dir_load [(name, e)]
+  | RDir d => dir_load d
+  end.
+(* the places of the file tree the path has led to or will lead to (release directories), by
+   an identity, each with what is there now *)
+Definition tree := list (N * rootview).
+Fixpoint tree_find (t : tree) (k : N) : rootview :=
+  match t with
+  | [] => RAbsent
+  | (i, r) :: t' => if i =? k then r else tree_find t' k
+  end.
+(* the file tree at one moment: the place the links on the configured path lead to NOW (None:
+   nowhere) and the content of every place *)
+Record world := { w_at : option N; w_tree : tree }.
+Definition denoted (w : world) : rootview :=
+  match w_at w with None => RAbsent | Some k => tree_find (w_tree w) k end.
+(* PathSource.Certificates: makePath once, then watch(ch, refresh, path, loadPath): every
+   iteration calls loadPath(path) with the path as configured *)
+Definition path_load (w : world) : load := root_load (denoted w).
+(* NOT the code: the configured path resolved with filepath.EvalSymlinks when the source is
+   created, the watcher polling the resolved place for ever (a path that cannot be resolved
+   at that moment is used as it is) *)
+Definition pinned_loads (ws : list world) : list load :=
+  match ws with
+  | [] => []
+  | w0 :: _ => match w_at w0 with
+               | Some k => map (fun w => root_load (tree_find (w_tree w) k)) ws
+               | None => map path_load ws
+               end
+  end.
